@@ -246,12 +246,15 @@ static int killOne(int pid) {
   return 0;
 }
 
+std::function<void(int pid, int err)> afterKill;
+
 void installHooks() {
   vb::onKill = [](int pid, int sig) -> int {
     if (pid <= 0) return 0;  // kill(0,..)/kill(-1,..) "succeed": the monitor flags them; nothing in the world dies
     if (sig == 0) return g_procs.count(pid) ? 0 : ESRCH;
     int e = killOne(pid);
     if (e == 0) syncProcs();
+    if (afterKill) afterKill(pid, e);
     return e;
   };
   vb::onCtlWrite = [](const std::string& path, const std::string& data) {
